@@ -97,6 +97,13 @@ class Gen:
             ts.append(ts[0])
         self.steps.append("C %s %s %s" % (c, k, ",".join(ts)))
         self.count("cmd_" + c)
+        y = r.random()
+        if y < 0.2:
+            self.steps.append("C ifchange %s %s" % (k, ",".join(ts)))
+            self.count("repeat_build")
+        elif y < 0.3:
+            self.steps.append("C ood k0 -")
+            self.count("ood_after_build")
 
     def history(self, nsteps):
         r = self.r
